@@ -60,6 +60,11 @@ try:
             if not okk:
                 still.append(t)
         res["tests_flaky_rerun"] = [t for t in missing if t not in still]
+        # two drawing tests use an unseeded layout under warnings-as-errors and fail in about half of the runs on the
+        # unmodified tree as well (every seed agent reported it): never count them against a change
+        KNOWN_FLAKY = {"tests.drawing.test_draw::test_issue_515", "xgi.drawing.draw::xgi.drawing.draw.draw"}
+        res["tests_known_flaky_failed"] = [t for t in still if t in KNOWN_FLAKY]
+        still = [t for t in still if t not in KNOWN_FLAKY]
         missing = still
         res["tests_missing"] = missing
         checks = {}
